@@ -78,12 +78,15 @@ Fixpoint ftab_eqb (a b : ftab_t) : bool :=
 
 (* ---- agree: the model against the implementation *)
 (* the model's outcome under the canonical world against the observed class: a user-facing error
-   may pre-empt anything data dependent; everything else must coincide *)
+   may pre-empt anything data dependent. A fault predicted by the model must show in the engine
+   (internal error, or a user error pre-empting it). An internal error of the engine where the
+   model predicts a value comes from code outside the model (function bodies, label handling,
+   pools): that is no disagreement about what is modelled, and it is what [holds] rejects. *)
 Definition class_consistent (q : qres) (r : run) : bool :=
   match q with
   | QRejected => r_class r =? 3
   | QInternal _ => (r_class r =? 2) || (r_class r =? 1)
-  | QValue t => ((r_class r =? 0) && vtype_eqb (r_vt r) t) || (r_class r =? 1)
+  | QValue t => ((r_class r =? 0) && vtype_eqb (r_vt r) t) || (r_class r =? 1) || (r_class r =? 2)
   | QUser => true
   end.
 
